@@ -216,8 +216,8 @@ func checkC03(r *Run) {
 	var roots []*ssa.Function
 	for _, f := range c.Funcs {
 		eachInstr(f, func(in ssa.Instruction) {
-			if k, ok := in.(*ssa.Call); ok && c.StaticCalleeOf(&k.Call) == a.PushTask && len(k.Call.Args) == 3 {
-				if fn, _ := c.closureOf(k.Call.Args[2]); fn != nil {
+			if k, ok := in.(*ssa.Call); ok && c.StaticCalleeOf(&k.Call) == a.PushTask && pushTaskArg(k) != nil {
+				if fn, _ := c.closureOf(pushTaskArg(k)); fn != nil {
 					roots = append(roots, fn)
 				}
 			}
